@@ -11,6 +11,39 @@ from checks import points
 PROP = "C10"
 
 
+def scaled(root, t):
+    """anonymous ScaledUnit of `root` with size t (origin: the root's)"""
+    f = Fraction(t) / root.m
+    cpp = "decltype(%s{} * (%s))" % (root.cpp, points.mexpr(f))
+    return points.PUnit("%s*%s" % (root.name, f), cpp, root.defs, t, root.o, root.o_unit, root.o_val, root.o_rep)
+
+
+def equal_size_members(rnd, lib, li):
+    t = rnd.choice([Fraction(5, 9), Fraction(1), Fraction(1, 1000), Fraction(1, 100), Fraction(1, 10), Fraction(7, 3)])
+    roots = list(lib)
+    for j in range(2):
+        ou = Fraction(1, rnd.choice([1, 100, 1000]))
+        roots.append(points.generated("E%d_%d" % (li, j), "au::Kelvins", rnd.choice([Fraction(1), Fraction(5, 9), Fraction(1, 1000), Fraction(3, 7)]),
+                                      ou, rnd.randrange(-40000, 40000)))
+    named = [r for r in roots if r.m == t]
+    k = rnd.choice([3, 3, 4])
+    members = []
+    if named and rnd.random() < 0.85:
+        members.append(rnd.choice(named))
+    tries = 0
+    while len(members) < k and tries < 40:
+        tries += 1
+        r = rnd.choice(roots)
+        if r.m == t:
+            cand = r
+        else:
+            cand = scaled(r, t)
+        if all(cand.o != m.o and cand.cpp != m.cpp for m in members):
+            members.append(cand)
+    rnd.shuffle(members)
+    return members
+
+
 def make_lists(ctx, rnd):
     lib = points.read_library(ctx)
     lists = []
@@ -33,6 +66,10 @@ def make_lists(ctx, rnd):
                     ou = Fraction(rnd.randrange(1, 1000), rnd.randrange(1, 1000)) if rnd.random() < 0.6 else Fraction(1, rnd.choice([1, 100, 1000]))
                     ov = rnd.randrange(-40000, 40000) if rnd.random() < 0.85 else 0
                     members.append(points.generated("L%d_%d" % (li, j), "au::Kelvins", m, ou, ov))
+        if rnd.random() < 0.3:
+            # equal sizes, different origins, named and anonymous scaled units side by side: the
+            # ordering criteria below the size (scale factor, origin, avoidance) decide alone
+            members = equal_size_members(rnd, lib, li)
         # exclusion (documented ordering limitation): two distinct types with identical size and origin
         bad = False
         for a, b in itertools.combinations(members, 2):
@@ -127,18 +164,31 @@ def body(ctx):
                 lines.append("static_assert(std::is_same<C, au::CommonPointUnitT<%s>>::value, \"permutation\");" % ", ".join(p))
             lines.append("static_assert(std::is_same<C, au::CommonPointUnitT<%s>>::value, \"repetition\");" % ", ".join(ts + [ts[0]]))
             lines.append("static_assert(std::is_same<C, au::CommonPointUnitT<%s>>::value, \"repetition\");" % ", ".join([ts[-1]] + ts))
+            if len(ts) >= 3:
+                for a in range(len(ts)):
+                    others = [t for j, t in enumerate(ts) if j != a]
+                    lines.append("static_assert(std::is_same<au::CommonPointUnitT<au::CommonPointUnitT<%s>, %s>, au::CommonPointUnitT<%s, au::CommonPointUnitT<%s>>>::value, \"nesting commutes\");"
+                                 % (", ".join(others), ts[a], ts[a], ", ".join(others)))
+                    lines.append("static_assert(au::AreUnitsPointEquivalent<C, au::CommonPointUnitT<au::CommonPointUnitT<%s>, %s>>::value, \"nesting\");" % (", ".join(others), ts[a]))
+            # the function forms and the maker forms name the same unit
+            lines.append("static_assert(std::is_same<decltype(au::common_point_unit(%s)), C>::value, \"common_point_unit(u...)\");" % ", ".join("%s{}" % t for t in ts))
+            lines.append("static_assert(std::is_same<decltype(au::common_point_unit(%s)), C>::value, \"common_point_unit(u...) reversed\");" % ", ".join("%s{}" % t for t in reversed(ts)))
+            lines.append("static_assert(std::is_same<decltype(au::make_common_point(%s)), au::QuantityPointMaker<C>>::value, \"make_common_point(point makers)\");" % ", ".join("au::QuantityPointMaker<%s>{}" % t for t in ts))
+            lines.append("static_assert(std::is_same<decltype(au::common_point_unit(%s)), C>::value, \"common_point_unit(point makers)\");" % ", ".join("au::QuantityPointMaker<%s>{}" % t for t in ts))
             winners = sorted({m.cpp for m in members if m.m == mC and m.o == oC})
             if winners:
                 lines.append("static_assert(%s, \"an input that already has the common size and origin is the result\");" % " || ".join("std::is_same<C, %s>::value" % w for w in winners))
             items.append(witness.Item(key, "\n".join(lines), "accept", None, dict(desc="common point unit of [%s] (size %s, origin %s)" % (", ".join(repr(m) for m in members), mC, oC))))
+    neq = sum(1 for l in lists if len(l) >= 3 and len({m.m for m in l}) == 1 and any("decltype" in m.cpp for m in l))
+    ctx.require(neq >= len(lists) // 10, "only %d lists of three or more equal-size units with an anonymous scaled member" % neq)
     ctx.require(len(skipped_overflow) * 4 <= len(lists), "%d of %d lists have no common point unit (origin comparison overflows)" % (len(skipped_overflow), len(lists)))
     results, stats = witness.judge(ctx, items, configs, prelude=prelude, batch=25, tag="c10")
     nbad = witness.report_mismatches(ctx, items, results, prelude=prelude)
     ctx.coverage.update(dict(
         evaluations=len(lists) + len(items) * len(configs), distinct_nontrivial=len(lists),
-        rule="one seeded list (pair or triple) of point units from {Kelvins, Celsius, Fahrenheit, prefixed forms} and generated units with rational size (num, den < 1000) and rational origin (positive, zero, negative, expressed in another unit): size and origin of CommonPointUnitT are read out of the type; ratio and offset of every input are decided exactly in the model; permutation / repetition identity, winner-is-an-input and agreement with the library's own conversion and origin_displacement are static_asserts",
+        rule="one seeded list (pair or triple) of point units from {Kelvins, Celsius, Fahrenheit, prefixed forms} and generated units with rational size (num, den < 1000) and rational origin (positive, zero, negative, expressed in another unit): size and origin of CommonPointUnitT are read out of the type; ratio and offset of every input are decided exactly in the model; in three lists of ten the members have EQUAL size and pairwise different origins and mix named units with anonymous scaled units of library / generated roots (Celsius*5/9, Kilo<Kelvins>/1800 next to Fahrenheit), so that the ordering criteria below the size decide; permutation / repetition identity, nesting, the function forms (common_point_unit, make_common_point and common_point_unit over point makers), winner-is-an-input and agreement with the library's own conversion and origin_displacement are static_asserts",
         samples=[dict(list=[repr(m) for m in lists[0]])], exhaustive=False,
-        lists=len(lists), lists_without_common_point_unit_overflowing_origin_comparison=len(skipped_overflow), model_obligations=nob, model_discharged=ndis, w_items=len(items), w_mismatches=nbad, configs=[c.name for c in configs], engine_stats=stats))
+        lists=len(lists), lists_equal_size_three_or_more=neq, lists_without_common_point_unit_overflowing_origin_comparison=len(skipped_overflow), model_obligations=nob, model_discharged=ndis, w_items=len(items), w_mismatches=nbad, configs=[c.name for c in configs], engine_stats=stats))
     ctx.assumptions += ["maximality of the common point unit is NOT demanded (the statement does not ask for it)"]
 
 
